@@ -23,6 +23,77 @@ using gatt_server = bluetoe::server<
     bluetoe::no_gap_service_for_gatt_servers
 >;
 
+// a server with a characteristic that requires an encrypted link (C28)
+std::uint8_t value_secret[ 6 ];
+const std::uint8_t secret_init[ 6 ] = { 0xc5, 0x28, 0x5e, 0xc2, 0xe7, 0x99 };
+
+using gatt_server_enc = bluetoe::server<
+    bluetoe::service<
+        bluetoe::service_uuid16< 0x1234 >,
+        bluetoe::characteristic<
+            bluetoe::characteristic_uuid16< 0xA001 >,
+            bluetoe::bind_characteristic_value< std::uint8_t[ 4 ], &value_a >,
+            bluetoe::notify, bluetoe::indicate >,
+        bluetoe::characteristic<
+            bluetoe::characteristic_uuid16< 0xA003 >,
+            bluetoe::bind_characteristic_value< std::uint8_t[ 6 ], &value_secret >,
+            bluetoe::requires_encryption >
+    >,
+    bluetoe::no_gap_service_for_gatt_servers
+>;
+constexpr unsigned secret_handle = 6;   // service 1, declaration 2, value 3, CCCD 4, declaration 5, value 6
+
+// the application's bond data base: two bonds that every peer may use
+struct bond_db_t
+{
+    static bluetoe::details::uint128_t key( unsigned i ) { bluetoe::details::uint128_t k; for ( unsigned j = 0; j != 16; ++j ) k[ j ] = static_cast< std::uint8_t >( 0x11 * ( i + 1 ) + j ); return k; }
+    static constexpr std::uint16_t ediv[ 2 ] = { 0x2211, 0x0001 };
+    static constexpr std::uint64_t rand[ 2 ] = { 0x8877665544332211ull, 1 };
+
+    template < class Radio >
+    bluetoe::details::longterm_key_t create_new_bond( Radio&, const bluetoe::link_layer::device_address& ) { return bluetoe::details::longterm_key_t{ key( 7 ), 0x0707070707070707ull, 0x0707 }; }
+    template < class Connection >
+    void store_bond( const bluetoe::details::longterm_key_t&, const Connection& ) {}
+    std::pair< bool, bluetoe::details::uint128_t > find_key( std::uint16_t e, std::uint64_t r, const bluetoe::link_layer::device_address& ) const
+    {
+        for ( unsigned i = 0; i != 2; ++i ) if ( ediv[ i ] == e && rand[ i ] == r ) return { true, key( i ) };
+        return std::pair< bool, bluetoe::details::uint128_t >{};
+    }
+    template < class Connection >
+    void restore_cccds( Connection& ) {}
+} bond_db;
+constexpr std::uint16_t bond_db_t::ediv[ 2 ];
+constexpr std::uint64_t bond_db_t::rand[ 2 ];
+
+// sim_radio with link encryption (flag and key, no cipher) and a toy security tool box for the legacy security manager (a stub: pairing is decided in sm_sim)
+template < std::size_t TransmitSize, std::size_t ReceiveSize, typename CallBack >
+class sim_radio_enc : public stack::sim_radio< TransmitSize, ReceiveSize, CallBack >
+{
+public:
+    static constexpr bool hardware_supports_lesc_pairing   = false;
+    static constexpr bool hardware_supports_legacy_pairing = true;
+    static constexpr bool hardware_supports_encryption     = true;
+
+    using u128 = bluetoe::details::uint128_t;
+    u128 create_srand() { u128 r; for ( auto& b : r ) b = static_cast< std::uint8_t >( ++toy_ * 37 ); return r; }
+    u128 create_passkey() { return u128{{ 0 }}; }
+    bluetoe::details::longterm_key_t create_long_term_key() { return bluetoe::details::longterm_key_t{ create_srand(), 0x1111222233334444ull, 0x5555 }; }
+    u128 c1( const u128& k, const u128& r, const u128& p1, const u128& p2 ) const { u128 o; for ( unsigned i = 0; i != 16; ++i ) o[ i ] = static_cast< std::uint8_t >( k[ i ] ^ r[ i ] ^ p1[ ( i + 3 ) % 16 ] ^ p2[ ( i + 7 ) % 16 ] ^ 0x5a ); return o; }
+    u128 s1( const u128& k, const u128& sr, const u128& mr ) { u128 o; for ( unsigned i = 0; i != 16; ++i ) o[ i ] = static_cast< std::uint8_t >( k[ i ] ^ sr[ i ] ^ mr[ 15 - i ] ^ 0xc3 ); return o; }
+
+    std::pair< std::uint64_t, std::uint32_t > setup_encryption( u128 key, std::uint64_t, std::uint32_t )
+    {
+        this->enc_key = key; this->key_set = true; ++this->enc_setups;
+        return { 0x0123456789abcdefull, 0x89abcdefu };
+    }
+    void start_receive_encrypted()  { this->rx_enc = true; ++this->rx_enc_starts; }
+    void start_transmit_encrypted() { this->tx_enc = true; }
+    void stop_receive_encrypted()   { this->rx_enc = false; }
+    void stop_transmit_encrypted()  { this->tx_enc = false; }
+private:
+    unsigned toy_ = 0;
+};
+
 stack::callback_recorder recorder;
 
 namespace ll = bluetoe::link_layer;
@@ -62,6 +133,21 @@ using ll4 = ll::link_layer< gatt_server, stack::sim_radio,
     ll::non_connectable_undirected_advertising,
     ll::white_list< 2 >,
     ll::advertising_interval< 50 > >;
+
+// link encryption: legacy security manager, bond data base, small buffers and latency
+using ll5 = ll::link_layer< gatt_server_enc, sim_radio_enc,
+    ll::connection_callbacks< stack::callback_recorder, recorder >,
+    bluetoe::legacy_security_manager,
+    bluetoe::bonding_data_base< bond_db_t, bond_db >,
+    ll::advertising_interval< 40 > >;
+
+using ll6 = ll::link_layer< gatt_server_enc, sim_radio_enc,
+    ll::connection_callbacks< stack::callback_recorder, recorder >,
+    bluetoe::legacy_security_manager,
+    bluetoe::bonding_data_base< bond_db_t, bond_db >,
+    ll::buffer_sizes< 61, 200 >,
+    ll::peripheral_latency_strict,
+    ll::advertising_interval< 40 > >;
 
 bluetoe::link_layer::device_address device( std::int64_t who )
 {
@@ -107,11 +193,12 @@ template < class LL > bool app_change_adv( LL& l, std::int64_t type, std::int64_
 }
 template < class LL > bool app_change_adv( LL&, std::int64_t, std::int64_t, std::false_type ) { return false; }
 
-template < class LL, bool WhiteList, bool VarMap, bool NoAutoStart, bool MultiAdv = false >
+template < class LL, bool WhiteList, bool VarMap, bool NoAutoStart, bool MultiAdv = false, bool Encryption = false >
 void run_config( const sim::Plan& plan, sim::Result& res, unsigned latency_features, unsigned sca, unsigned adv_interval, unsigned wl_size, unsigned rx, unsigned tx )
 {
     recorder = stack::callback_recorder();
     std::memset( value_b, 0x42, sizeof value_b );
+    std::memcpy( value_secret, secret_init, sizeof value_secret );
     std::unique_ptr< LL > link( new LL );
     stack::ll_access acc;
     acc.run = [&]{ link->run(); };
@@ -121,6 +208,11 @@ void run_config( const sim::Plan& plan, sim::Result& res, unsigned latency_featu
     acc.latency_features = latency_features; acc.own_sca_ppm = sca; acc.adv_interval_ms = adv_interval;
     acc.has_white_list = WhiteList; acc.white_list_size = wl_size; acc.variable_adv_map = VarMap; acc.no_auto_start = NoAutoStart;
     acc.rx_buffer = rx; acc.tx_buffer = tx;
+    if ( Encryption )
+    {
+        acc.has_encryption = true; acc.secret = value_secret; acc.secret_size = sizeof value_secret; acc.secret_handle = secret_handle;
+        for ( unsigned i = 0; i != 2; ++i ) acc.bonds.push_back( stack::ll_access::bond{ bond_db_t::ediv[ i ], bond_db_t::rand[ i ], bond_db_t::key( i ) } );
+    }
     acc.tx_allocatable = [&]{ return link->allocate_transmit_buffer( 29 ).size != 0; };
     acc.app = [&]( int kind, std::int64_t a, std::int64_t b ) -> bool {
         switch ( kind )
@@ -145,17 +237,20 @@ void run_config( const sim::Plan& plan, sim::Result& res, unsigned latency_featu
     res.probe( "connections", w.connections );
     if ( w.instants_applied ) res.probe( "instants_applied", w.instants_applied );
     if ( w.control_answered ) res.probe( "control_pdus_answered", w.control_answered );
+    if ( w.enc_completed ) res.probe( "encryption_procedures_completed", w.enc_completed );
+    if ( w.enc_rejected ) res.probe( "encryption_procedures_rejected", w.enc_rejected );
     res.nontrivial = w.adv_pdus >= 3 && ( w.connection_events >= 5 || plan.property == "C24" || plan.property == "C25" );
+    if ( plan.property == "C28" ) res.nontrivial = w.enc_completed + w.enc_rejected > 0;
     stack::g_current_radio = nullptr;
 }
 
 struct stack_harness : sim::Harness
 {
     const char* name() const override { return "stack_sim"; }
-    std::vector< std::string > properties() const override { return { "C20", "C21", "C22", "C23", "C24", "C25", "C27", "C29" }; }
+    std::vector< std::string > properties() const override { return { "C20", "C21", "C22", "C23", "C24", "C25", "C27", "C28", "C29" }; }
     std::string nontrivial_rule( const std::string& ) const override
     {
-        return "seeded plans against the whole peripheral (5 link layer configurations): scanners and initiators with well formed and malformed requests, a reference central with drifting clock "
+        return "seeded plans against the whole peripheral (7 link layer configurations, two of them with link encryption, a legacy security manager and a bond data base): scanners and initiators with well formed and malformed requests, a reference central with drifting clock "
                "(CSA#1, anchors, ARQ, MD bursts, LL control PDUs of every opcode and length, connection/channel-map/PHY updates with legal and illegal instants), application calls between events "
                "(notify/indicate with event cancellation, disconnect, peripheral initiated procedures, white list, advertising map/start/stop), air faults attached to connection events "
                "(loss or CRC error towards the peripheral, loss towards the central, silent central); non-trivial = >=3 advertising PDUs and >=5 connection events (advertising properties: >=3 PDUs); distinct = distinct trace hashes";
@@ -167,15 +262,16 @@ struct stack_harness : sim::Harness
     }
     std::vector< std::string > stub_components() const override { return { "radio (harness/sim_radio.hpp: scheduled_radio contract incl. scan request handling)", "central / scanners / initiators (reference, from the Core specification)", "application", "air", "clocks of both devices" }; }
     std::uint64_t default_runs( const std::string&, bool thorough ) const override { return thorough ? 6000000 : 150000; }
-    std::vector< std::string > op_names() const override { return { "run", "scan_request", "connect_request", "air_fault", "central_control", "central_update", "central_l2cap", "app", "central_terminate" }; }
+    std::vector< std::string > op_names() const override { return { "run", "scan_request", "connect_request", "air_fault", "central_control", "central_update", "central_l2cap", "app", "central_terminate", "central_encryption" }; }
 
     sim::Plan generate( std::uint64_t seed, const std::string& property, bool thorough ) const override
     {
         sim::Rng rng( seed );
         sim::Plan p;
         p.harness = name(); p.property = property; p.seed = seed;
-        p.config = static_cast< int >( rng.below( 5 ) );
-        static const int own_sca[ 5 ] = { 500, 100, 20, 500, 500 };
+        p.config = static_cast< int >( rng.below( 7 ) );
+        if ( property == "C28" ) p.config = 5 + static_cast< int >( rng.below( 2 ) );
+        static const int own_sca[ 7 ] = { 500, 100, 20, 500, 500, 500, 500 };
         // the peripheral's clock error: inside its declared accuracy, extremes likely
         const int sel = static_cast< int >( rng.below( 5 ) );
         p.knobs[ "p_drift_ppm" ] = sel == 0 ? own_sca[ p.config ] : sel == 1 ? -own_sca[ p.config ] : sel == 2 ? 0 : rng.range( -own_sca[ p.config ], own_sca[ p.config ] );
@@ -186,7 +282,14 @@ struct stack_harness : sim::Harness
         for ( unsigned i = 0; i != n_ops; ++i )
         {
             const unsigned x = static_cast< unsigned >( rng.below( 100 ) );
-            if ( x < 34 ) p.ops.push_back( sim::Op( stack::op_run, { rng.chance( 70 ) ? rng.range( 1, 6 ) : rng.range( 6, adv_focus ? 20 : 60 ) } ) );
+            if ( p.config >= 5 && rng.chance( property == "C28" ? 40 : 15 ) )
+            {
+                // link encryption: procedures of an honest central, single PDUs of a hostile one, accesses to the protected characteristic
+                static const int kinds[] = { 0, 0, 0, 1, 2, 2, 3, 3, 4, 5, 6, 6, 6, 7, 7 };
+                p.ops.push_back( sim::Op( stack::op_central_enc, { kinds[ rng.below( sizeof kinds / sizeof kinds[ 0 ] ) ], rng.range( 0, 5 ), rng.range( 0, 5 ) } ) );
+                if ( rng.chance( 60 ) ) p.ops.push_back( sim::Op( stack::op_run, { rng.range( 1, 6 ) } ) );
+            }
+            else if ( x < 34 ) p.ops.push_back( sim::Op( stack::op_run, { rng.chance( 70 ) ? rng.range( 1, 6 ) : rng.range( 6, adv_focus ? 20 : 60 ) } ) );
             else if ( x < ( adv_focus ? 50 : 38 ) ) p.ops.push_back( sim::Op( stack::op_scan_req, { rng.chance( 60 ) ? 0 : rng.range( 1, 5 ), rng.range( 0, 5 ) } ) );
             else if ( x < ( adv_focus ? 62 : 50 ) )
             {
@@ -247,7 +350,7 @@ struct stack_harness : sim::Harness
 
     void execute( const sim::Plan& plan, sim::Result& res ) const override
     {
-        const int c = ( ( plan.config % 5 ) + 5 ) % 5;
+        const int c = ( ( plan.config % 7 ) + 7 ) % 7;
         res.note( "config %d", c );
         switch ( c )
         {
@@ -257,6 +360,8 @@ struct stack_harness : sim::Harness
         case 2: run_config< ll2, false, false, true >( plan, res, 1 | 16, 20, 20, 0, 61, 61 ); break;
         case 3: run_config< ll3, false, true, false >( plan, res, 4 | 2, 500, 1000, 0, 200, 61 ); break;
         case 4: run_config< ll4, true, false, false, true >( plan, res, 1 | 2 | 4 | 8 | 16, 500, 50, 2, 61, 61 ); break;
+        case 5: run_config< ll5, false, false, false, false, true >( plan, res, 1 | 2 | 4 | 8 | 16, 500, 40, 0, 61, 61 ); break;
+        case 6: run_config< ll6, false, false, false, false, true >( plan, res, 1 | 16, 500, 40, 0, 200, 61 ); break;
         }
     }
 
